@@ -47,7 +47,7 @@ ENUMS = {
     "ShortTCoefficient": {"EscapeToLong": "EscapeToLong", "Run": "Run"},
 }
 # methods of enums that the model has as functions of the same meaning (their Rust definitions are translated and bridged too)
-ENUM_METHODS = {("MacroblockType", "is_inter"): "mb_is_inter", ("MacroblockType", "is_intra"): "mb_is_intra",
+ENUM_METHODS = {("PictureTypeCode", "is_disposable"): "is_disposable", ("MacroblockType", "is_inter"): "mb_is_inter", ("MacroblockType", "is_intra"): "mb_is_intra",
                 ("MacroblockType", "has_fourvec"): "mb_has_fourvec", ("MacroblockType", "has_quantizer"): "mb_has_quantizer",
                 ("PictureTypeCode", "is_any_pbframe"): "is_any_pbframe"}
 # VLC tables: the model's table of the same (lower-case) name, regenerated and bridged in BridgeTables; type of a leaf
@@ -281,6 +281,12 @@ class PEmitter:
                     tgt = tgt[1]
                 if tgt[0] == "var":
                     acc.add(tgt[1])
+                if tgt[0] == "field" and tgt[1] == ("var", "self"):
+                    acc.add("self." + tgt[2])
+            if node and node[0] == "mcall" and node[1] == ("var", "self") and node[2] == "cleanup_buffers":
+                acc |= {"self.last_picture", "self.reference_picture", "self.reference_states"}
+            if node and node[0] == "mcall" and node[2] == "insert" and node[1] == ("field", ("var", "self"), "reference_states"):
+                acc.add("self.reference_states")
             if node and node[0] == "mcall" and node[2] == "push" and node[1][0] == "var":
                 acc.add(node[1][1])
             if node and node[0] == "var" and node[1] in ("reader", "_reader"):
@@ -527,6 +533,9 @@ class PEmitter:
         raise Untranslatable("operator %s" % op)
 
     def field(self, e, env, k):
+        if e[1] == ("var", "self") and ("self." + e[2]) in env:
+            a, t = env["self." + e[2]]
+            return k(a, t, env)
         def after(a, t, env):
             t = resolve(t)
             if t == "Picture":
@@ -851,6 +860,10 @@ class PEmitter:
             t = resolve(t)
             if isinstance(t, str) and (t, name) in ENUM_METHODS and not args:
                 return k("(%s %s)" % (ENUM_METHODS[(t, name)], a), "bool", env)
+            if t == "DecodedPicture" and name == "as_header" and not args:
+                return k("(d_header %s)" % a, "Picture", env)
+            if t == "DecodedPicture" and name == "format" and not args:
+                return k("(d_format %s)" % a, "SourceFormat", env)
             if name == "len" and not args and isinstance(t, tuple) and t[0] == "list":
                 return k("(zlength %s)" % a, "usize", env)
             if name == "saturating_sub" and len(args) == 1 and is_int(t):
@@ -938,11 +951,13 @@ class PEmitter:
             return self.expr(s[3], env, bound, want_t)
         if kind == "assign":
             tgt = s[1]
+            if tgt[0] == "field" and tgt[1] == ("var", "self") and ("self." + tgt[2]) in env:
+                tgt = ("var", "self." + tgt[2])
             if tgt[0] != "var" or tgt[1] not in env:
                 raise Untranslatable("assignment target")
             name = tgt[1]
             old, told = env[name]
-            rhs = s[3] if s[2] == "=" else ("bin", s[2][:-1], tgt, s[3])
+            rhs = s[3] if s[2] == "=" else ("bin", s[2][:-1], s[1], s[3])
             def assigned(a, t, env):
                 tt = resolve(told)
                 if not (self.is_flags(tt) or (isinstance(tt, tuple) and tt[0] == "opt")):
@@ -961,6 +976,26 @@ class PEmitter:
                 return self.while_stmt(e, env, rest)
             if e[0] == "mcall" and e[2] == "push":
                 return self.expr(e, env, lambda a, t, env: rest(env))
+            if e[0] == "mcall" and e[2] == "commit" and e[1] == ("var", "reader") and not e[3]:
+                return rest(env)          # commit() drops consumed bytes: the identity on the abstract reader (model/Reader.v)
+            if e[0] == "mcall" and e[2] == "insert" and e[1] == ("field", ("var", "self"), "reference_states") and len(e[3]) == 2 \
+                    and "self.reference_states" in env:
+                def ins(kk, tk, env):
+                    def ins2(vv, tv, env):
+                        v = self.fresh("map")
+                        env2 = dict(env); env2["self.reference_states"] = (v, env["self.reference_states"][1])
+                        return "let %s := pm_insert %s %s %s in\n  %s" % (v, env["self.reference_states"][0], kk, vv, rest(env2))
+                    return self.expr(e[3][1], env, ins2)
+                return self.expr(e[3][0], env, ins)
+            if e[0] == "mcall" and e[2] == "cleanup_buffers" and e[1] == ("var", "self") and not e[3] and "self.last_picture" in env:
+                # cleanup_buffers (and_then / remove_entry / a fresh HashMap) is the model's function of the same name
+                v = self.fresh("st")
+                env2 = dict(env)
+                for f in ("last_picture", "reference_picture", "reference_states"):
+                    env2["self." + f] = ("(%s %s)" % (f, v), env["self." + f][1])
+                cur = "(mkState (st_opts %s) %s %s (running_options %s) %s)" % (env["self"][0], env["self.last_picture"][0],
+                                                                              env["self.reference_picture"][0], env["self"][0], env["self.reference_states"][0])
+                return "let %s := cleanup_buffers %s in\n  %s" % (v, cur, rest(env2))
             if e[0] == "try":
                 return self.expr(e, env, lambda a, t, env: rest(env))
             raise Untranslatable("expression statement %s" % e[0])
@@ -1192,7 +1227,14 @@ class PEmitter:
     def if_stmt(self, e, env, rest):
         c_e, thn, els = e[1], e[2], e[3]
         branches = [thn] + ([els] if els is not None else [])
-        simple = els is None and not self.has_return(thn) and "$reader" not in self.assigned(thn, set()) and all(s[0] == "assign" for s in thn[1]) and thn[2] is None
+        def tname(node):
+            if node[0] == "var":
+                return node[1]
+            if node[0] == "field" and node[1] == ("var", "self"):
+                return "self." + node[2]
+            return None
+        simple = els is None and not self.has_return(thn) and "$reader" not in self.assigned(thn, set()) and thn[2] is None \
+            and all(s[0] == "assign" and tname(s[1]) in env for s in thn[1])
         def with_cond(c, tc, env):
             if simple:
                 # conditional updates
@@ -1200,7 +1242,7 @@ class PEmitter:
                     if j == len(thn[1]):
                         return rest(env)
                     s = thn[1][j]
-                    name = s[1][1]
+                    name = tname(s[1])
                     rhs = s[3] if s[2] == "=" else ("bin", s[2][:-1], s[1], s[3])
                     old, told = env[name]
                     def upd(a, t, env):
@@ -1801,10 +1843,25 @@ def find_fn_generic(toks, name):
     p.expect("(")
     params = []
     while not p.at(")"):
+        if p.at("&"):
+            p.next()
+            if p.at_id("mut"):
+                p.next()
+            if not p.at_id("self"):
+                raise Untranslatable("bad self parameter")
+            p.next()
+            params.append(("self", "Self"))
+            if p.at(","):
+                p.next()
+            continue
         if p.at_id("mut"):
             p.next()
-        nm = p.expect_id(); p.expect(":")
-        params.append((nm, p.ty()))
+        nm = p.expect_id()
+        if nm == "self":
+            params.append(("self", "Self"))
+        else:
+            p.expect(":")
+            params.append((nm, p.ty()))
         if p.at(","):
             p.next()
     p.expect(")")
@@ -1857,6 +1914,7 @@ def gen_parser(repo, status, write):
                      .replace("model.Header.\n", "model.Header model.Syntax.\n").replace("Create HintDb pgen.", "Create HintDb pgenmb."),
                hintdb="pgenmb")
     gen_pure(repo, status, write)
+    gen_state(repo, status, write)
 
 
 def gen_pure(repo, status, write):
@@ -1883,6 +1941,106 @@ def gen_pure(repo, status, write):
             body += "(* p_%s: untranslatable: %s *)\n\n" % (f, str(e).replace("*)", "* )"))
             status[key] = "untranslatable: %s" % e
     write(fname, body)
+
+
+def contains_call(node, name):
+    if isinstance(node, tuple):
+        if node and node[0] == "call" and node[1] == ("var", name):
+            return True
+        return any(contains_call(x, name) for x in node)
+    if isinstance(node, list):
+        return any(contains_call(x, name) for x in node)
+    return False
+
+
+def state_writes(node, out):
+    """writes to the decoder state inside an AST: assignments to self.<field>, and calls of methods of self other than the
+    read-only ones"""
+    READ_ONLY = {"is_sorenson", "get_last_picture", "get_reference_picture", "parse_picture"}
+    if isinstance(node, tuple):
+        if node and node[0] == "assign":
+            t = node[1]
+            if t[0] == "field" and t[1] == ("var", "self"):
+                out.append("self.%s %s .." % (t[2], node[2]))
+        if node and node[0] == "mcall":
+            r = node[1]
+            if r == ("var", "self") and node[2] not in READ_ONLY:
+                out.append("self.%s()" % node[2])
+            if r[0] == "field" and r[1] == ("var", "self") and node[2] in ("insert", "remove", "remove_entry", "clear", "retain", "entry",
+                                                                           "get_mut", "take", "replace", "insert_unique_unchecked", "drain"):
+                out.append("self.%s.%s()" % (r[2], node[2]))
+        for x in node:
+            state_writes(x, out)
+    elif isinstance(node, list):
+        for x in node:
+            state_writes(x, out)
+    return out
+
+
+def gen_state(repo, status, write):
+    """decoder/state.rs, decode_next_picture: the commit phase (every statement after the last reconstruction step) as a
+    function of the decoder state and the new picture, and two facts about the rest: no statement before the commit phase
+    writes the decoder state, and the commit phase has no fallible step."""
+    fname, rel = "GenPState.v", "h263/src/decoder/state.rs"
+    body = ("(* GENERATED by tools/rs2v.py (rs2v_parser) from %s -- do not edit. *)\n"
+            "From Coq Require Import String.\n"
+            "From H263V Require Import base.Prelude base.Checked model.Types model.Tables model.Reader model.Header model.Syntax model.Recon model.Decoder.\n\n" % rel)
+    keys = ["parser.p_store_picture", "parser.p_prefix_state_writes"]
+    try:
+        src = Source(repo, rel)
+        defs = Defs(repo)
+        params, ret, fbody = find_fn_generic(find_impl_tokens(src.toks, "decode_next_picture"), "decode_next_picture")
+        tail = fbody[2]
+        if not (fbody[0] == "block" and tail is not None and tail[0] == "mcall" and tail[1] == ("var", "reader")
+                and tail[2] == "with_transaction" and tail[3] and tail[3][0][0] == "closure"):
+            raise Untranslatable("decode_next_picture is not `reader.with_transaction(|reader| { .. })`")
+        outer_writes = state_writes(fbody[1], [])
+        clo = tail[3][0][2]
+        if clo[0] != "block":
+            raise Untranslatable("closure body")
+        stmts, ctail = clo[1], clo[2]
+        idx = max([i for i, st in enumerate(stmts) if contains_call(st, "idct_channel") or contains_call(st, "gather")], default=None)
+        if idx is None:
+            raise Untranslatable("no reconstruction step (gather / idct_channel) found")
+        prefix, commit = stmts[:idx + 1], stmts[idx + 1:]
+        writes = outer_writes + state_writes(prefix, [])
+        body += "(* writes to the decoder state before the commit phase (assignments to self.<field>, mutating calls on self) *)\n"
+        body += "Definition p_prefix_state_writes : list string :=\n  [%s]%%string.\n\n" % "; ".join('"%s"' % w for w in writes)
+        status[keys[1]] = "ok"
+        # the commit phase must end the closure with Ok(()) and contain no fallible step
+        em = PEmitter(defs, {}, {})
+        fallible = any(em.has_return(st) for st in commit)
+        okunit = ctail is not None and ctail[0] == "call" and ctail[1] == ("var", "Ok")
+        body += "Definition p_commit_has_fallible_step : bool := %s.\n" % ("true" if fallible else "false")
+        body += "Definition p_commit_ends_with_ok : bool := %s.\n\n" % ("true" if okunit else "false")
+        # constants of the file
+        toks = src.toks
+        for i in range(len(toks) - 5):
+            if toks[i] == ("id", "const") and toks[i + 2] == ("op", ":") and toks[i + 4] == ("op", "=") and toks[i + 5][0] == "num" and toks[i + 3][1] in INTS:
+                em.known[toks[i + 1][1]] = ("static", zlit(parse_int(toks[i + 5][1])), toks[i + 3][1])
+        em.pure = True
+        env = {"self": ("a_self", "H263State"),
+               "self.last_picture": ("(last_picture a_self)", ("opt", "u16")),
+               "self.reference_picture": ("(reference_picture a_self)", ("opt", "u16")),
+               "self.reference_states": ("(reference_states a_self)", "PictureMap"),
+               "next_decoded_picture": ("a_np", "DecodedPicture"), "$reader": ("tt", "reader")}
+        def fin(a, t, env2):
+            return "mkState (st_opts a_self) %s %s (running_options a_self) %s" % (
+                env2["self.last_picture"][0], env2["self.reference_picture"][0], env2["self.reference_states"][0])
+        code = em.stmts(commit, 0, None, env, fin, None)
+        if em.lifted:
+            raise Untranslatable("control flow with early exits in the commit phase")
+        body += "Definition p_store_picture (a_self : state) (a_np : decoded_picture) : state :=\n  %s.\n" % em.finish(code)
+        status[keys[0]] = "ok"
+    except Untranslatable as e:
+        for k in keys:
+            status.setdefault(k, "untranslatable: %s" % e)
+        body += "(* untranslatable: %s *)\n" % str(e).replace("*)", "* )")
+    write(fname, body)
+
+
+def find_impl_tokens(toks, fn_name):
+    return toks
 
 
 def _gen_group(repo, status, write, fname, rel, functions, known, header, statics=False, hintdb="pgen"):
